@@ -384,6 +384,7 @@ func (t *Total) calculateFinalSum(zero num.Amount, rr cbc.Key) {
 
 func (t *Total) calculateBaseCategoryTotal(ct *CategoryTotal, zero num.Amount, rr cbc.Key) {
 	ct.Amount = zero
+	ct.Surcharge = nil // recalculated from the rates, like the amount
 	for _, rt := range ct.Rates {
 		if rt.Percent == nil {
 			rt.Amount = zero
